@@ -550,7 +550,19 @@ def _check_awkward(cell, case, ctx):
     if rows is None:
         ctx.exclude("operand_not_representable")
         return
-    arr = ak.unflatten(build.ak_flat(sa, rows, mom), [2, 0, 3, 1])
+    # field spellings and redundant fields as users build them with ak.zip(..., with_name=...): momentum names, a
+    # non-coordinate field, and (4D) a second temporal field of the other kind, which both the interpreter and the compiled
+    # typer have to rank the same way
+    import zlib
+
+    h = zlib.crc32(("awk" + cell["id"]).encode())
+    extra_f = {"charge": numpy.array([1, -1, 0, 2, -2, 1])} if (h >> 2) % 2 else {}
+    if d == 4 and (h >> 3) % 2:
+        other = (("tau", "mass", "M", "m") if sa[2] == "t" else ("t", "E", "e", "energy"))[(h >> 4) % 4]
+        if not mom:
+            other = "tau" if sa[2] == "t" else "t"
+        extra_f[other] = numpy.array([20.5, 21.25, 22.0, 23.5, 24.75, 25.0])
+    arr = ak.unflatten(build.ak_flat(sa, rows, mom, "momentum" if (mom and h % 2) else "generic", extra_f or None, (h >> 6) % 3), [2, 0, 3, 1])
     exprs = []
     for s in case["prog"]:
         cellu = dict(cell, group="unary")
